@@ -1,3 +1,172 @@
-import NeverModel.Model.Vm
+import NeverModel.Props.C09
+import NeverModel.Props.C10
+import NeverModel.Props.C12
+import NeverModel.Props.C14
+import NeverModel.Props.C03
+/-!
+# C01 — accepted programs run safely
+
+Safety of the VM is split at the interface where it can be split without modelling the 10 kLoC
+typechecker: the *tag discipline* of operands.  The theorems below say that — operands of the
+right object type given — the VM's guards are complete: for ALL operand values a handler ends in a
+value, a language exception or a reported limit, never in a trap / wild access, except at the
+points exhibited by the `_counterexample` theorems (genuine defects of the pinned tree, replayed on
+the real VM by checks/c01.py as known findings).
+That static typing implies the tag discipline at every instruction of every accepted program is
+NOT proved; it is validated dynamically: every replayed step of every program runs the model's
+tag-checked accessors (a wrong tag is a divergence / crash), see checks/c01.py.
+-/
 namespace Never.C01
+open Never Never.Num Never.Idx
+
+/-! ## arithmetic, comparison, bitwise and conversion handlers -/
+
+/-- well-tagged operands never make a typed handler fail on a tag -/
+theorem arith_never_tag (ty : NTy) (op : BinOp) (a b : NVal) (ha : a.ty = ty) (hb : b.ty = ty)
+    (hop : ty = .char → (op = .lt ∨ op = .gt ∨ op = .lte ∨ op = .gte ∨ op = .eq ∨ op = .neq))
+    (hf : (ty = .float ∨ ty = .double) → (op ≠ .mod ∧ op ≠ .band ∧ op ≠ .bor ∧ op ≠ .bxor ∧ op ≠ .shl ∧ op ≠ .shr)) :
+    bin ty op a b ≠ .tag := by
+  cases ty <;> cases a <;> simp [NVal.ty] at ha <;> cases b <;> simp [NVal.ty] at hb
+  · cases op <;> simp [bin, binInt] <;> (repeat' split) <;> simp
+  · cases op <;> simp [bin, binLong] <;> (repeat' split) <;> simp
+  · have := hf (Or.inl rfl)
+    cases op <;> simp_all [bin, binFloat] <;> (repeat' split) <;> simp
+  · have := hf (Or.inr rfl)
+    cases op <;> simp_all [bin, binDouble] <;> (repeat' split) <;> simp
+  · rcases hop rfl with h | h | h | h | h | h <;> subst h <;> simp [bin, binChar]
+
+/-- **zero-divisor and overflow guards**: a typed binary handler traps only at `(MIN, -1)` division /
+remainder and at shift counts outside `[0, width)`; everywhere else — all 2^64 / 2^128 operand
+pairs — it yields a value or `division_by_zero` -/
+theorem arith_guards_complete_partial (ty : NTy) (op : BinOp) (a b : NVal) (w : String)
+    (h : bin ty op a b = .crash w) : C10.UBCase (.bin ty op) a b :=
+  C10.sem_crash_cases (.bin ty op) a b w h
+
+/-- unary handlers and the twelve conversions never trap -/
+theorem unary_and_conversions_total (a : NVal) (w : String) :
+    (∀ ty op, un ty op a ≠ .crash w) ∧ (∀ s d, conv s d a ≠ .crash w) := by
+  constructor
+  · intro ty op h; exact (C10.sem_crash_cases (.un ty op) a a w h).elim
+  · intro s d h; exact (C10.sem_crash_cases (.conv s d) a a w h).elim
+
+/-- the excluded point is real: `INT_MIN / -1` traps (SIGFPE) instead of raising or wrapping -/
+theorem arith_guards_counterexample :
+    bin .int .div (.int intMin32) (.int (-1)) = .crash "SIGFPE: INT_MIN / -1" ∧
+    bin .int .mod (.int intMin32) (.int (-1)) = .crash "SIGFPE: INT_MIN % -1" := by
+  constructor <;> decide
+
+/-- division by zero is always caught, for every dividend, in all four numeric types -/
+theorem zero_divisor_raises (op : BinOp) (hop : op = .div ∨ op = .mod) (a : BitVec 32) (b : BitVec 64) :
+    binInt op a 0 = .exc 1 ∧ binLong op b 0 = .exc 1 := by
+  rcases hop with h | h <;> subst h <;> simp [binInt, binLong]
+
+/-! ## array indexing -/
+
+theorem dimAddrAux_ok_inrange : ∀ (dv : List (Nat × Nat)) (idx : List Nat) (m acc a : Nat),
+    dimAddrAux dv idx m acc = .ok a →
+    ∀ k (h1 : k < dv.length) (h2 : k < idx.length), idx[k] < dv[k].1 := by
+  intro dv
+  induction dv with
+  | nil => intro idx m acc a _ k h1; simp at h1
+  | cons d dv ih =>
+    intro idx m acc a h k h1 h2
+    cases idx with
+    | nil => simp at h2
+    | cons i idx =>
+      obtain ⟨el, mu⟩ := d
+      simp only [dimAddrAux] at h
+      split at h
+      · cases h
+      · rename_i hlt
+        cases k with
+        | zero => simp; omega
+        | succ k =>
+          simp only [List.getElem_cons_succ]
+          exact ih idx (m + 1) _ a h k (by simpa using h1) (by simpa using h2)
+
+theorem multPass_fst : ∀ (exts : List Nat) (e : Nat), (multPass exts e).map (·.1) = exts := by
+  intro exts
+  induction exts with
+  | nil => intro e; rfl
+  | cons x xs ih =>
+    intro e
+    simp only [multPass]
+    split <;> simp [ih]
+
+theorem firstNeg_none_all : ∀ (idx : List Int) (m : Nat), firstNeg idx m = none →
+    ∀ k (hk : k < idx.length), 0 ≤ idx[k] := by
+  intro idx
+  induction idx with
+  | nil => intro m _ k hk; simp at hk
+  | cons e es ih =>
+    intro m h k hk
+    simp only [firstNeg] at h
+    split at h
+    · cases h
+    · rename_i hge
+      cases k with
+      | zero => simp; omega
+      | succ k => simp only [List.getElem_cons_succ]; exact ih (m + 1) h k (by simpa using hk)
+
+/-- **bounds guard complete**: whenever the deref of an array whose element count did not wrap is
+accepted, the element index it yields lies inside the element array and is the row-major one, and
+no index was negative; so an out-of-range or negative index in any dimension never reaches memory -/
+theorem array_index_guard_complete_partial (exts : List Nat) (idx : List Int) (a : Nat)
+    (hp : prod exts < U32) (hl : idx.length = exts.length)
+    (h : derefIndices (dimMult exts).1 idx = .ok a) :
+    a < (dimMult exts).2 ∧ a = rowMajor exts (idx.map Int.toNat) ∧ ∀ k (hk : k < idx.length), 0 ≤ idx[k] := by
+  unfold derefIndices at h
+  split at h
+  · cases h
+  · rename_i hfn
+    have hnn := firstNeg_none_all idx 0 hfn
+    have hdv : (dimMult exts).1 = multPass exts (prod exts) := by rw [dimMult_of_lt exts hp]
+    have hfst : ((dimMult exts).1).map (·.1) = exts := by rw [hdv]; exact multPass_fst exts _
+    have hlen : (dimMult exts).1.length = exts.length := by
+      have := congrArg List.length hfst; simpa using this
+    have hin := dimAddrAux_ok_inrange (dimMult exts).1 (idx.map Int.toNat) 0 0 a h
+    have hin' : ∀ k (h1 : k < (idx.map Int.toNat).length) (h2 : k < exts.length), (idx.map Int.toNat)[k] < exts[k] := by
+      intro k h1 h2
+      have hk := hin k (by rw [hlen]; exact h2) h1
+      have he : (((dimMult exts).1)[k]'(by rw [hlen]; exact h2)).1 = exts[k] := by
+        have h3 : (((dimMult exts).1).map (·.1))[k]'(by simp [hlen]; exact h2) = exts[k] := by simp [hfst]
+        simpa using h3
+      rw [he] at hk; exact hk
+    obtain ⟨e1, e2, e3⟩ := rowmajor_exact exts (idx.map Int.toNat) hp (by simpa using hl) hin'
+    have : dimAddr (dimMult exts).1 (idx.map Int.toNat) = .ok a := h
+    rw [e1] at this
+    cases this
+    exact ⟨e2, rfl, hnn⟩
+
+/-- the excluded point is real: with a wrapped element count the guard accepts an index into an empty array -/
+theorem array_index_guard_counterexample :
+    derefIndices (dimMult [65536, 65536]).1 [1, 1] = .ok 0 ∧ (dimMult [65536, 65536]).2 = 0 := by
+  constructor <;> decide
+
+/-! ## strings, stack, heap, handler lookup: the guards proved elsewhere, collected -/
+
+/-- the repaired string guard is exact; the pinned one accepts every negative index -/
+theorem string_index_guard :
+    (∀ len i, stringDerefOkFixed len i = true ↔ (0 ≤ i ∧ i < (len : Int))) ∧
+    (∀ len : Nat, ∀ i : Int, i < 0 → stringDerefOk len i = true) :=
+  ⟨string_index, string_deref_counterexample.2.2⟩
+
+/-- a checked push is in bounds or reported (C14) -/
+theorem stack_push_guard (vm : Vm.Vm) (a : Nat) (hs : Vm.StackOk vm) (h0 : -1 ≤ vm.sp) :
+    Vm.pushP vm a ≠ .error (.crash "stack write out of bounds") := C14.push_never_wild vm a hs h0
+
+/-- a collection on a consistent heap is defined: no NULL / foreign object is read, the marking
+recursion ends (C09) -/
+theorem collector_guard {g : Gc} {st : List Slot} {gp : Nat} (inv : Inv g)
+    (wt : g.wellTyped (.collect st gp) = true) : (g.collect st gp).isSome = true := C09.collect_defined inv wt
+
+/-- every fault address below the sentinel has a handler in a well-formed table: the
+`assert(res != NULL)` of `exception_tab_search` cannot fire (C03) -/
+theorem handler_lookup_guard (tab : Array ExcEntry) (count ip : Nat) (hwf : ExcWF tab count = true)
+    (hip : ip < 4294967295) : (excHandler tab count ip).isSome = true := by
+  obtain ⟨i, e1, e2, _, _, _, _, _, h⟩ := C03.exctab_search_correct tab count ip hwf hip
+  simp [h]
+
+example : derefIndices (dimMult [2, 3]).1 [1, 2] = .ok 5 ∧ prod [2, 3] < U32 := by decide
+
 end Never.C01
